@@ -22,6 +22,7 @@ def run(chk):
     npaths = 0
     for kind, cnt in (('stateful', 30 if quick else 400), ('just', 16 if quick else 200), ('feat', 24 if quick else 200)):
         lst, paths = synthwork.make_fonts(kind, chk.seed, cnt)
+        paths = [p_ for p_ in paths if '_jx' not in p_]          # justification attributes at the edges of their range: C19's known finding KF-C19-3
         npaths += len(paths)
         for p in paths:
             parts.append(dict(harness='h_hist', flavour='asan', args=['--font', p, '--ops', 40 if quick else 200, '--probes', 10], cases=12 if quick else 60, nshards=1, nsamples=0))
